@@ -184,6 +184,15 @@ prop("C08", "broker-side subscriptions converge to the app's calls", "fault_enum
      [dict(tests="^TestVerifC08_Subscriptions$", checks_quick=3000, checks_thorough=15000, shards=16)],
      assumptions=["granted QoS equals requested QoS at the broker model", "quiescence is decided with the verif-tagged observation hook after the reconnect loop pushed its tasks"])
 
+prop("C17", "the registered handler follows the connection", "fault_enumeration",
+     E4RULE + "C17: Handle(h_k) calls placed before Connect, after it, between reconnects and concurrently with them; 0..5 "
+     "reconnects by cuts; tagged inbound messages (q0/q1/q2) placed in the same buffer directly behind the CONNACK of generated "
+     "connections and at settle points, each batch followed by a QoS1 sync marker. Oracle: every injected message on a connection "
+     "whose marker was acknowledged reached the handler in force (the last Handle call that returned before the message became "
+     "readable); handlers registered concurrently with the arrival are also acceptable; no other handler may receive it; QoS0 "
+     "exactly once. Non-trivial = >= 1 judged message on a connection after the first; distinct = FNV-64 of the case JSON.",
+     [dict(tests="^TestVerifC17_Handler$", checks_quick=3000, checks_thorough=15000, shards=12)])
+
 # ---------------------------------------------------------------------------------------------
 # texts for MANIFEST.json (tools/gen_manifest.py)
 
@@ -278,3 +287,8 @@ mtext("C12", "E4 history runner + E3 broker model; E5 for the retry handle",
 mtext("C08", "E4 history runner + E3 broker model",
       "rapid fault-injection property test; oracle = broker subscription table == fold of the calls, and no SUBSCRIBE of an acknowledged request where re-subscription is forbidden",
       "Sampling of Subscribe/Unsubscribe histories x cut placements x session configurations against the real client.", E4NOTE, "DESIGN.md section 4 / C08")
+
+mtext("C17", "E4 history runner + E3 broker model injecting inbound traffic",
+      "rapid fault-injection property test; oracle = each injected message is received by the handler in force according to the global event log",
+      "Sampling of Handle placements x reconnects x injection points; 'in force' is derived from sequence numbers on one timeline, with the "
+      "racing class accepted either way, so the oracle cannot false-alarm on schedules.", E4NOTE, "DESIGN.md section 4 / C17")
